@@ -80,3 +80,11 @@ def run_case(case, res):
     res.count("refine_steps", obs.steps)
     res.states.add(res.hash)
     res.sample = {"config": cfg, "steps_done": obs.steps, "extends": obs.extends, "splits": obs.splits, "trace": obs.trace[:8]}
+
+
+def crash_sig(case, ex, where, tb):
+    rng = random.Random(case["seed"])
+    cfg = extsplit.gen_config(rng, case.get("tier", "quick"), versions=(0, 0, 1, 2))
+    if cfg["automatic"] and not cfg["boundary"] and isinstance(ex, AssertionError):
+        return "extsplit_crash:automatic_extend_split_without_boundary_points:%s" % where.split(":")[-1]
+    return None
